@@ -14,10 +14,11 @@ Case lines
   4 code occ kind ncode nocc         (virt) arrival: after the occ-th loop event `code` a thread calls
                                      kind 1 mark_push_update_pending() / 2 request_stop(); its notify_all is held back
                                      until the nocc-th event ncode (ncode=0: not held back).  code 13 = inside the wait.
-  5 delay kind                       (free) arrival `delay` real us after the graph started
+  5 delay kind [early]               (free) arrival `delay` real us after the graph started (early=1: after graph.start
+                                     was ENTERED, i.e. while start hooks run; run_storage's reset is already behind)
   7 1                                request_stop() is called before run() is entered
 Observation lines (first line 90 mode)
-  hook mode (1): 10 started | 11 loop body entered | 12 w clock reading in advance_realtime | 13 about to wait_for
+  hook mode (1): 9 i start hook of node i begins | 10 started | 11 loop body entered | 12 w clock reading in advance_realtime | 13 about to wait_for
      14 wait_for returned | 15 t advance_realtime returned t | 16 t graph.evaluate(t) entered | 17 push source evaluated
      18 i k timer node i runs (k-th) | 19 i kind arg eff n w1 w2 request, entered under eff (0: ignored), readings made
      20 evaluate returned | 21 run returned | 22 w node read the clock
@@ -35,7 +36,7 @@ BUDGET = {"quick": 170, "thorough": 3000}
 MAX_DRAIN = 1024
 MAX_DT = 10413792000000000
 
-PLACE = [10, 11, 12, 13, 13, 13, 13, 15, 16, 17, 18, 18, 20]
+PLACE = [9, 10, 11, 12, 13, 13, 13, 13, 15, 16, 17, 18, 18, 20]
 
 
 # ---------------------------------------------------------------- generation
@@ -186,6 +187,43 @@ def _gen_drain_guard(rng, tier):
     return drain_guard_case(m, rng.choice([2, 3, 7, 30]), jump, rng.choice([0, 0, 3]))
 
 
+def stop_in_start_case(variant, nnodes=2, who=1, deferred=0, kind=2):
+    """A stop (kind 2; or a push, kind 1) requested DURING the start phase, after run_storage's reset:
+       'own'    : from the start hook of node `who` (hook mode)
+       'other'  : from another thread while the start hook of node `who` is executing (hook mode, event 9)
+       'after'  : from another thread when graph.start has just returned, still inside the Start phase (event 10)
+       'fown'   : free running, from the node's own start hook
+       'fother' : free running, from another thread while a start hook sleeps."""
+    if variant in ('fown', 'fother'):
+        lines = [[1, 1000000, 1060000, 10000000, 0, 1000000, 0], [6, nnodes]]
+    else:
+        lines = [[1, 1000, 1200, 7, 1, 1000, 3], [6, nnodes]]
+    far = 20000 if variant in ('fown', 'fother') else 40
+    for i in range(1, nnodes + 1):
+        if variant == 'fother' and i == who:
+            lines.append([3, i, -1, 6, 30000])            # the start hook takes 30 ms
+        if variant in ('own', 'fown') and i == who:
+            lines.append([3, i, -1, 1, 0])
+            lines.append([3, i, -1, 5, 0])                 # request_stop() from the start hook
+            lines.append([3, i, -1, 1, far])
+        else:
+            lines.append([3, i, -1, 1, 0])
+        lines.append([3, i, -2, 1, far])
+    if variant == 'other':
+        lines.append([4, 9, who, kind, 13 if deferred else 0, 1 if deferred else 0])
+    elif variant == 'after':
+        lines.append([4, 10, 1, kind, 0, 0])
+    elif variant == 'fother':
+        lines.append([5, 3000, kind, 1])
+    return lines
+
+
+def _gen_stop_in_start(rng, tier):
+    v = rng.choice(['own', 'own', 'other', 'other', 'other', 'after', 'fown', 'fother'])
+    n = rng.choice([1, 2, 3])
+    return stop_in_start_case(v, n, rng.randint(1, n), rng.random() < 0.3, 2 if rng.random() < 0.8 else 1)
+
+
 def _gen_lag_end(rng, tier):
     """The wall clock passes end while the graph still has work at exact logical times; steps of 1 and more."""
     v0 = 3000
@@ -297,7 +335,9 @@ def _gen(rng, tier, prop):
         return _gen_drain(rng, tier)
     if r < 0.83:
         return _gen_drain_guard(rng, tier)
-    if r < 0.85:
+    if r < 0.86:
+        return _gen_stop_in_start(rng, tier)
+    if r < 0.875:
         return nowake_case(rng.choice([1, 2]))
     return _gen_free(rng, tier)
 
@@ -318,6 +358,13 @@ def enumerate_cases(prop):
             out.append(base + [[4, pc, po, 2, hold[0], hold[1]]])
     out.append(nowake_case(1))
     out.append(nowake_case(2))
+    for v in ('own', 'other', 'after', 'fown', 'fother'):
+        for n in (1, 2, 3):
+            for who in range(1, n + 1):
+                out.append(stop_in_start_case(v, n, who))
+                if v == 'other':
+                    out.append(stop_in_start_case(v, n, who, 1))
+                    out.append(stop_in_start_case(v, n, who, 0, 1))
     for m in (1022, 1023, 1024, 1025, 1026, 1100):
         for k in (2, 5):
             out.append(drain_guard_case(m, k, True))
@@ -472,6 +519,8 @@ def _oracle_hook(d, out):
     cut_taken = False
     exited = False
     waits_since_push = 0
+    stop_in_start = False
+    loop_tested = False          # the loop's first  while (!stop_requested)  test has been made
     for l in out[1:]:
         k = l[0]
         if k in (96, 97, 98, 99):
@@ -500,8 +549,13 @@ def _oracle_hook(d, out):
         elif k == 22:
             wall = max(wall, l[1])
         elif k == 11:
-            if stop:
+            if stop and stop_in_start:
+                fails.append(("stop_during_start_lost", "a stop requested during the start phase (after run_storage's reset) "
+                              "was lost: the loop body was entered"))
+                stop_in_start = False
+            elif stop:
                 fails.append(("stop_ignored", "the loop body was entered although a stop request had landed"))
+            loop_tested = True
             nxt = min(pend) if pend else MAX_DT
             tgt = min(nxt, end)
             last_read = None
@@ -579,6 +633,7 @@ def _oracle_hook(d, out):
             prev = cur
         elif k == 21:
             exited = True
+            loop_tested = True
             if not stop:
                 if adv is None or adv < end:
                     fails.append(("early_exit", "run returned without a stop request before reaching end (last advance %s)" % adv))
@@ -590,6 +645,8 @@ def _oracle_hook(d, out):
                 push = True
                 owed += 1
         elif k == 32:
+            if not stop and not loop_tested:
+                stop_in_start = True
             stop = True
             owed += 1
         elif k in (31, 33):
@@ -618,6 +675,7 @@ def _oracle_free(d, out):
     cur = None
     need_push = saw_push = False
     exited = False
+    stop_in_start = False
     for l in out[1:]:
         k = l[0]
         if k in (96, 97, 98, 99):
@@ -651,6 +709,10 @@ def _oracle_free(d, out):
             need_push = t < tgt
             if need_push and wlast is not None and t < wlast:
                 fails.append(("eval_time_formula", "wake-up cycle stamped %d, before an earlier clock reading %d" % (t, wlast)))
+            if stop_in_start:
+                fails.append(("stop_during_start_lost", "a stop requested during the start phase had returned before graph.start "
+                              "did, yet a cycle (%d) is evaluated" % t))
+                stop_in_start = False
             if stopret:
                 after_stop += 1
                 if after_stop > 1:
@@ -671,6 +733,8 @@ def _oracle_free(d, out):
         elif k == 36:
             stopinit = stopinit or l[1] == 2
         elif k == 35:
+            if l[1] == 2 and not started:
+                stop_in_start = True
             stopret = stopret or l[1] == 2
         elif k == 21:
             exited = True
@@ -706,7 +770,8 @@ PROP_KINDS = {"C17": {
     "early_exit", "dropped_wakeup", "drain_cut_early", "alarm_dropped", "alarm_not_future", "alarm_time", "alarm_due_time",
     "sched_rule", "notify_before_flag", "late_wakeup", "no_exit", "harness_abort", "trace_shape",
     # candidate findings (see docs/notes-rtloop.md); listed in known_findings.json
-    "scheduled_cycle_before_wall", "stop_before_run_lost"}}
+    "scheduled_cycle_before_wall", "stop_before_run_lost",
+    "stop_during_start_lost"}}
 
 
 def shrink(case):
